@@ -397,6 +397,83 @@ def die_machinery(prop: str, tier: str, msg: str) -> int:
     return 2
 
 
+class StepTimeout(BaseException):
+    """raised inside a worker when one operation of the library under test does not return in time"""
+
+
+class Watchdog(object):
+    """`with Watchdog(30):` - SIGALRM after the given seconds raises StepTimeout in the main thread of
+    the (worker) process.  An operation of the code under test that loops for ever thus becomes an
+    observation (exception StepTimeout) the oracles judge, instead of a hung check."""
+
+    def __init__(self, seconds: int):
+        self.seconds = seconds
+        self.old = None
+
+    @staticmethod
+    def _trips_dir() -> str:
+        d = os.path.join(scratch(), "watchdog_trips")
+        os.makedirs(d, exist_ok=True)
+        return d
+
+    def __enter__(self):
+        import signal
+        # circuit breaker: after three operations of this run did not return, the remaining ones are not
+        # waited for any more (the run already has its violations; it must end)
+        try:
+            if len(os.listdir(self._trips_dir())) >= 3:
+                raise StepTimeout("not attempted: three earlier operations of this run did not return")
+        except OSError:
+            pass
+
+        def handler(signum, frame):
+            try:
+                with open(os.path.join(self._trips_dir(), "%d-%f" % (os.getpid(), time.time())), "w"):
+                    pass
+            except OSError:
+                pass
+            raise StepTimeout("no answer within %d s" % self.seconds)
+        try:
+            self.old = signal.signal(signal.SIGALRM, handler)
+            signal.alarm(self.seconds)
+        except ValueError:      # not in the main thread
+            self.old = None
+        return self
+
+    def __exit__(self, *a):
+        import signal
+        try:
+            signal.alarm(0)
+            if self.old is not None:
+                signal.signal(signal.SIGALRM, self.old)
+        except ValueError:
+            pass
+        return False
+
+
+_armed = [None]
+
+
+def arm(seconds: int) -> None:
+    """(Re)starts the watchdog of this worker process for the next operation of the code under test:
+    loops call it at the top of every iteration and disarm() after the loop (see Watchdog)."""
+    if _armed[0] is not None:
+        _armed[0].__exit__()
+    try:
+        w = Watchdog(seconds)
+        w.__enter__()
+        _armed[0] = w
+    except StepTimeout:
+        _armed[0] = None
+        raise
+
+
+def disarm() -> None:
+    if _armed[0] is not None:
+        _armed[0].__exit__()
+        _armed[0] = None
+
+
 def cov_save() -> None:
     """Development aid (tools/coverage_run.sh): a forked child that leaves through os._exit saves its
     coverage data first.  No-op unless the run was started under coverage."""
